@@ -509,7 +509,7 @@ def replay_interleaving(inputs):
 
 
 def bounded_interleavings(tier, seed):
-    n = 6 if tier == 'quick' else 100
+    n = 6 if tier == 'quick' else 40  # 40 x 1500 steps take about a third of the job's wall-time budget on an idle machine (100 came within a quarter of it)
     steps = 250 if tier == 'quick' else 1500
     st = Stand('C20.interleavings', f'{n} random interleavings of {steps} steps (create / query with varying arguments / drop / gc / address churn, > 128 live objects), '
                'cached vs uncached on a probe class and on real Jumps objects; liveness via weakref + gc.collect()',
